@@ -33,17 +33,31 @@ def oracle(sc, out):
         if run["end"] in ("shutdown", "shutdown-thread-payload", "shutdown-adopters"):
             if not any(e["kind"] == "shutdown-return" and e.get("rid") == rid for e in log):
                 res.append(("shutdown-hangs", "runner %d: shutdown() did not return" % rid))
+        # shutdown() on a runner that has ended returns as well (nothing is left to stop)
+        late = [e for e in log if e["kind"] == "after-begin" and e.get("rid") == rid]
+        if late:
+            calls = [e for e in log if e["kind"] == "shutdown-call" and e.get("rid") == rid and e["seq"] > late[0]["seq"]]
+            rets = [e for e in log if e["kind"] == "shutdown-return" and e.get("rid") == rid and e["seq"] > late[0]["seq"]]
+            errs = [e for e in log if e["kind"] == "controller-error" and e.get("step") == "shutdown" and e["seq"] > late[0]["seq"]]
+            if errs:
+                res.append(("late-shutdown-raises", "shutdown() on runner %d after its run had ended raised %s: %s" % (rid, errs[0].get("etype"), errs[0].get("msg"))))
+            elif len(rets) < len(calls):
+                res.append(("late-shutdown-hangs", "shutdown() on runner %d after its run had ended did not return" % rid))
         # a concurrent accept must be rejected and leave the active runner undisturbed
         for a in log:
-            if a["kind"] == "accept-admitted" and begin["seq"] < a["seq"] < end["seq"]:
-                res.append(("concurrent-accept-admitted", "a concurrent accept on runner %s was admitted while runner %d was accepting" % (a.get("rid"), rid)))
+            # (a concurrent accept that arrives when the active run has just ended is let in rightly)
+            if a["kind"] == "accept-admitted":
+                cb = next((e for e in log if e["kind"] == "accept-begin" and e.get("concurrent") and e["thread"] == a["thread"]), None)
+                cb = [e for e in log if e["kind"] == "accept-begin" and e.get("concurrent") and e.get("rid") == a.get("rid") and e["seq"] < a["seq"]]
+                if cb and begin["seq"] < cb[-1]["seq"] and cb[-1]["t"] < end["t"] - 0.08:
+                    res.append(("concurrent-accept-admitted", "a concurrent accept on runner %s was admitted while runner %d was accepting" % (a.get("rid"), rid)))
         conc = [e for e in log if e["kind"] == "accept-end" and e.get("concurrent") and begin["seq"] < e["seq"] < end["seq"]]
         for c in conc:
             if c["result"] != "RuntimeError" or c.get("has_cause"):
                 res.append(("concurrent-accept-not-rejected", "a concurrent accept ended with %s instead of a plain RuntimeError" % c["result"]))
-            stop = next((e for e in log if e["kind"] in ("shutdown-call", "sigint") and e["seq"] > c["seq"]), None)
-            if stop is not None and end["seq"] < stop["seq"] and run["end"] != "failure":
-                res.append(("active-runner-disturbed", "the active runner ended before it was asked to, after a rejected concurrent accept"))
+        asked = any(e["kind"] in ("shutdown-call", "sigint") and begin["seq"] < e["seq"] < end["seq"] for e in log)
+        if conc and not asked and run["end"] != "failure":
+            res.append(("active-runner-disturbed", "the active runner ended before it was asked to, after a rejected concurrent accept"))
     return res
 
 
